@@ -53,6 +53,22 @@ def the_record():
   return _REC['r']
 
 
+def fresh_record():
+  htf = ohtf.reset_case()
+
+  @htf.measures(htf.Measurement('m').in_range(0, 10))
+  def ph(test):
+    test.measurements.m = 5
+    test.attach('a.txt', b'hello')
+    test.dut_id = 'DUT1'
+
+  t = htf.Test(ph, test_name='tn')
+  got = []
+  t.add_output_callbacks(got.append)
+  t.execute()
+  return got[0]
+
+
 def simple_record():
   if 's' not in _REC:
     ohtf.load()
@@ -310,7 +326,12 @@ def publish(case, destdir, fault_serializer_at=None):
   if case['kind'] == 'json':
     rec = the_record()
     cb = json_factory.OutputToJSON(pattern, indent=case.get('indent'))
-    if fault_serializer_at in ('real-nan', 'real-set'):
+    if fault_serializer_at == 'real-closed-attachment':
+      # no injected fault either: CloseAttachments ran before this callback (the order in which a station registered its
+      # callbacks), so the encoder fails when it reaches the inlined attachment, after most of the record was produced
+      rec = fresh_record()
+      callbacks.CloseAttachments()(rec)
+    elif fault_serializer_at in ('real-nan', 'real-set'):
       # no injected fault: the genuine JSON encoder meets a value it cannot encode (configuration values reach the record as
       # they are) after it has produced most of the record
       import copy as _copy  # pylint: disable=g-import-not-at-top
@@ -485,7 +506,7 @@ def check(case, acct=None, known=()):
     nchunks = len(case['chunks']) if case['kind'] != 'json' else min(6, content.count(b',') + 1)
     ks = list(range(0, nchunks + 1)) if not (case['kind'] == 'file' and (case['serializer'] == 'pickle' or case.get('single'))) else [0]
     if case['kind'] == 'json':
-      ks += ['real-nan', 'real-set']
+      ks += ['real-nan', 'real-set', 'real-closed-attachment']
     for k in ks:
       sb.reset(prev, name)
       fault = Fault()
